@@ -18,21 +18,28 @@ VARIABLES pending,    \* works accepted by the acceptor, not yet received by the
           advwants,   \* what adv's next handle_events returns when it does not raise: "go" | "teardown"
           alive,      \* the loop is still running
           progress,   \* loop iterations the canary has been served
-          finished    \* works that were shut down (their shutdown was called)
-vars == <<pending, works, registered, armed, advwants, alive, progress, finished>>
+          finished,   \* works that were shut down (their shutdown was called)
+          vanished    \* the selector has silently dropped adv's descriptor (closed / reused number: epoll forgets it) while the
+                      \* executor's bookkeeping still lists it: adv gets no events, and unregistering it raises KeyError
+vars == <<pending, works, registered, armed, advwants, alive, progress, finished, vanished>>
 
 Init == /\ pending \in {<<"adv", "can">>, <<"can", "adv">>, <<"can">>} /\ works = {} /\ registered = {} /\ armed = "none" /\ advwants = "go"
-        /\ alive = TRUE /\ progress = 0 /\ finished = {}
+        /\ alive = TRUE /\ progress = 0 /\ finished = {} /\ vanished = FALSE
 
 \* environment: arm a fault at a call site of the adversary / make it ask for teardown / a new adversary connects
-Arm(s) == armed = "none" /\ alive /\ armed' = s /\ UNCHANGED <<pending, works, registered, advwants, alive, progress, finished>>
-WantTeardown == advwants = "go" /\ alive /\ advwants' = "teardown" /\ UNCHANGED <<pending, works, registered, armed, alive, progress, finished>>
+Arm(s) == armed = "none" /\ alive /\ armed' = s /\ UNCHANGED <<pending, works, registered, advwants, alive, progress, finished, vanished>>
+Vanish == "adv" \in registered /\ alive /\ ~vanished /\ vanished' = TRUE /\ UNCHANGED <<pending, works, registered, armed, advwants, alive, progress, finished>>
+WantTeardown == advwants = "go" /\ alive /\ advwants' = "teardown" /\ UNCHANGED <<pending, works, registered, armed, alive, progress, finished, vanished>>
 
 Raises(w, s) == w = "adv" /\ armed = s
 
 \* cleanup of work w: unregister, shutdown (may raise), forget.  -> [works, registered, finished, alive, armed]
 CleanupOf(w, st) ==
-    LET boom == Raises(w, "shutdown") /\ st.armed = "shutdown" IN
+    LET boom == Raises(w, "shutdown") /\ st.armed = "shutdown"
+        keyerr == w = "adv" /\ vanished                                    \* selector.unregister raises KeyError
+    IN
+    IF keyerr /\ ~FIX THEN [st EXCEPT !.alive = FALSE]                      \* as found: KeyError leaves _cleanup and the loop
+    ELSE
     [ works |-> IF boom /\ ~FIX THEN st.works ELSE st.works \ {w},          \* as found: the raise skips "del self.works[...]"
       registered |-> st.registered \ {w},
       finished |-> st.finished \cup {w},
@@ -49,7 +56,7 @@ Tick ==
                         ELSE [st0 EXCEPT !.alive = FALSE, !.armed = "none"])
                   ELSE [st0 EXCEPT !.registered = works]
        IN IF ~st1.alive THEN /\ alive' = FALSE /\ armed' = st1.armed /\ works' = st1.works /\ registered' = st1.registered
-                             /\ finished' = st1.finished /\ UNCHANGED <<pending, advwants, progress>>
+                             /\ finished' = st1.finished /\ UNCHANGED <<pending, advwants, progress, vanished>>
           ELSE
           \* 2. accept new work: initialize (a raise there is contained: the work is cleaned up at once)
           LET newcomers == IF pending = <<>> THEN {} ELSE {Head(pending)}
@@ -58,7 +65,7 @@ Tick ==
                      THEN [st1 EXCEPT !.works = @ \cup (newcomers \ {"adv"}), !.finished = @ \cup {"adv"}, !.armed = "none"]
                      ELSE [st1 EXCEPT !.works = @ \cup newcomers]
               \* 3. handle_events of the works that were registered and ready (all registered works are ready in this model)
-              ready == st1.registered \cap st2.works
+              ready == (st1.registered \cap st2.works) \ (IF vanished THEN {"adv"} ELSE {})
               heBoom == "adv" \in ready /\ st2.armed = "handle_events"
               advDown == "adv" \in ready /\ (heBoom \/ advwants = "teardown")
               st3 == IF advDown THEN CleanupOf("adv", [st2 EXCEPT !.armed = IF heBoom THEN "none" ELSE @]) ELSE st2
@@ -67,7 +74,7 @@ Tick ==
               st4 == IF canDone /\ st3.alive THEN CleanupOf("can", st3) ELSE st3
           IN /\ works' = st4.works /\ registered' = st4.registered /\ finished' = st4.finished /\ alive' = st4.alive
              /\ armed' = st4.armed /\ pending' = (IF pending = <<>> THEN <<>> ELSE Tail(pending)) /\ progress' = IF canServed THEN progress + 1 ELSE progress
-             /\ UNCHANGED advwants
+             /\ UNCHANGED advwants /\ vanished' = (vanished /\ "adv" \in st4.registered)
 
 Reap ==
     /\ alive
@@ -76,9 +83,9 @@ Reap ==
            st1 == IF boom THEN (IF FIX THEN CleanupOf("adv", [st0 EXCEPT !.armed = "none"]) ELSE [st0 EXCEPT !.alive = FALSE, !.armed = "none"])
                   ELSE st0
        IN /\ works' = st1.works /\ registered' = st1.registered /\ finished' = st1.finished /\ alive' = st1.alive /\ armed' = st1.armed
-          /\ UNCHANGED <<pending, advwants, progress>>
+          /\ UNCHANGED <<pending, advwants, progress>> /\ vanished' = (vanished /\ "adv" \in st1.registered)
 
-Next == (\E s \in Sites : Arm(s)) \/ WantTeardown \/ Tick \/ Reap
+Next == (\E s \in Sites : Arm(s)) \/ WantTeardown \/ Vanish \/ Tick \/ Reap
 Spec == Init /\ [][Next]_vars
 FairSpec == Spec /\ WF_vars(Tick)
 
